@@ -682,6 +682,43 @@ fn wait_timeout(child: &mut std::process::Child, limit: Duration) -> Option<std:
     }
 }
 
+/// Generate a case in a child process (a generator that calls into the code under test,
+/// e.g. a validating filter, may itself hang on a broken tree).
+fn gen_case_json_guarded(id: &str, seed: u64, profile: &str, index: u64) -> Value {
+    let Ok(exe) = std::env::current_exe() else { return Value::Null };
+    let Ok(mut child) = Command::new(exe)
+        .arg("gen")
+        .arg(id)
+        .arg(profile)
+        .arg(index.to_string())
+        .arg("--seed")
+        .arg(seed.to_string())
+        .stdin(Stdio::null())
+        .stdout(Stdio::piped())
+        .stderr(Stdio::null())
+        .spawn()
+    else {
+        return Value::Null;
+    };
+    // read the output on a thread so a large case cannot block the pipe
+    let mut out = child.stdout.take();
+    let reader = std::thread::spawn(move || {
+        let mut s = String::new();
+        if let Some(o) = out.as_mut() {
+            use std::io::Read;
+            let _ = o.read_to_string(&mut s);
+        }
+        s
+    });
+    match wait_timeout(&mut child, Duration::from_secs(60)) {
+        Some(st) if st.success() => {
+            let s = reader.join().unwrap_or_default();
+            serde_json::from_str(&s).unwrap_or(Value::Null)
+        }
+        _ => json!({"generator_did_not_return": format!("{id} {profile} {index} (seed {seed})")}),
+    }
+}
+
 pub fn gen_case_json<P: Prop>(seed: u64, profile: &str, index: u64) -> Value {
     let strat = P::strategy(profile);
     let mut runner = runner_for(seed, P::ID, profile, index);
@@ -808,7 +845,7 @@ pub fn driver<P: Prop>(args: &DriverArgs) -> i32 {
                         let mut it = l.split_whitespace();
                         let profile = it.next().unwrap_or("").to_string();
                         let index: u64 = it.next().and_then(|x| x.parse().ok()).unwrap_or(0);
-                        let case = gen_case_json::<P>(args.seed, &profile, index);
+                        let case = gen_case_json_guarded(id, args.seed, &profile, index);
                         let f = FailureRec {
                             signature: "crash: worker process killed by a signal (stack overflow or abort)".into(),
                             detail: format!("worker died twice at case {profile}:{index} (status {code:?})"),
@@ -835,7 +872,7 @@ pub fn driver<P: Prop>(args: &DriverArgs) -> i32 {
         match wait_timeout(&mut c2, left.max(Duration::from_secs(1))) {
             None => {
                 let sig = "no-return: call did not return within 90 s".to_string();
-                let case = gen_case_json::<P>(args.seed, &profile, index);
+                let case = gen_case_json_guarded(id, args.seed, &profile, index);
                 let sig = refine_hang_signature(&sig, &case);
                 if known.iter().any(|kf| kf.signature == sig) {
                     *known_seen.entry(sig).or_insert(0) += 1;
